@@ -636,7 +636,7 @@ where
                     let is_active = if flush_result.is_some() {
                         trace!("Flush completed.");
                         flushed = true;
-                        if registered.is_empty() && awaiting_synced.is_empty() {
+                        if registered.is_empty() && awaiting_synced.is_empty() && awaiting_linked.is_empty() {
                             trace!("Number of subscribers dropped to 0.");
                             task_state.set(Some(make_timeout()));
                             false
@@ -719,7 +719,7 @@ where
                         if !I::SINGLE_FRAME_STATE {
                             send_current(&mut awaiting_synced, &current).await;
                         }
-                        if registered.is_empty() && awaiting_synced.is_empty() {
+                        if registered.is_empty() && awaiting_synced.is_empty() && awaiting_linked.is_empty() {
                             trace!("Number of subscribers dropped to 0.");
                             task_state.set(Some(make_timeout()));
                             flushed = true;
